@@ -123,6 +123,8 @@ type Res struct {
 	UID    int    `json:"uid,omitempty"` // upload ordinal returned by CreateMultipartUpload
 	// Checksums returned by the op (crc32, crc32c, crc64nvme, sha1, sha256, type).
 	Ck map[string]string `json:"ck,omitempty"`
+	// CkOpt (model only): checksum values that must match *if* the implementation reports them.
+	CkOpt map[string]string `json:"ckopt,omitempty"`
 	// RawVID / RawUID: the implementation's real ids (hints for the driver's id tables).
 	RawVID string `json:"rawvid,omitempty"`
 	RawUID string `json:"rawuid,omitempty"`
